@@ -311,6 +311,55 @@ def opt_half(u0: int, v0: int, h0: bool, h1: bool, twice: bool) -> bool:
     return _opt(PORTS3, [[(0.5 if h0 else 1, a)], [(0.5 if h1 else 1, b)]], 2 if twice else 1)
 
 
+# ---- shipped example / test kernels on shipped models --------------------------------------------------
+
+def _shipped_concrete(ex, mode):
+    """mode 0: uniform (--fixed), 1: one balancing pass, 2: two passes (as the CLI)"""
+    from harness._pipeline import example_lines, EXAMPLES, model, parser_for
+    arch = EXAMPLES[ex][1]
+    m, sem = model(arch)
+    isa = m.get_ISA()
+    kernel = parser_for(isa).parse_file("\n".join(example_lines(ex)) + "\n")
+    sem.add_semantics(kernel)
+    for _ in range(mode):
+        sem.assign_optimal_throughput(kernel)
+    ports = m.get_ports()
+    ok = totals_ok(kernel, ArchSemantics.get_throughput_sum(kernel))
+    n_checked = 0
+    for k in kernel:
+        us_raw = k.port_uops
+        if k.mnemonic is None or not isinstance(us_raw, list):
+            continue
+        us = [(c, tuple(ports.index(q) for q in ps)) for c, ps in us_raw]
+        composed = (INSTR_FLAGS.HAS_LD in k.flags or INSTR_FLAGS.HAS_ST in k.flags) and INSTR_FLAGS.LD not in k.flags
+        has_mult = "load_throughput_multiplier" in m or "store_throughput_multiplier" in m
+        overlap = _overlap_diff(us)
+        p = list(k.port_pressure)
+        allowed = set(i for _, ix in us for i in ix)
+        tol = 0.01 * max(len(us), 1) * max(mode, 1) + 1e-6
+        if any(x < -tol for x in p) or any(abs(p[q]) > tol for q in range(len(ports)) if q not in allowed):
+            ok = False
+        if not (composed and has_mult):
+            # without a multiplier in play the full feasibility check applies (subset clause dropped for
+            # the recorded second-pass finding)
+            if not hall_ok(len(ports), us, p, tol, subset_clause=not (mode == 2 and overlap)):
+                ok = False
+        n_checked += 1
+    return ok, n_checked > 0, {"kernel": EXAMPLES[ex][0], "arch": arch, "mode": ["uniform", "one pass", "two passes"][mode], "instructions": n_checked}
+
+
+def shipped(ex: int, mode: int) -> bool:
+    """
+    pre: 0 <= ex < 16 and 0 <= mode <= 2
+    post: _
+    """
+    lo, hi = shard(16)
+    if not (lo <= ex < hi):
+        return True
+    ok, nt, sample = native(_shipped_concrete, pick(ex, 16), pick(mode, 3))
+    return verdict(ok, nontrivial=nt, sample=sample)
+
+
 CELLS = {
     "uniform2": {"fn": uniform2, "bound": "3 ports (one multi-character name in list form), 2 micro-ops, every port-set pair, all real-valued cycles in [0,64]; Hall condition exact", "budget": {"quick": 170, "thorough": 600}},
     "uniform3": {"fn": uniform3, "tiers": ("thorough",), "bound": "3 micro-ops, every port-set triple, all real-valued cycles in [0,64]", "budget": {"thorough": 1200}, "shards": 7},
@@ -323,6 +372,8 @@ CELLS = {
     "opt_2x2": {"fn": opt_2x2, "tiers": ("thorough",), "bound": "two instructions with 2 micro-ops each over 14 forms (38416 kernels) x 1/2 passes", "budget": {"thorough": 1500}, "shards": 49},
     "opt_alt": {"fn": opt_alt, "bound": "3 single-micro-op instructions over the 7 one-cycle forms, the instruction at each position with a second alternative port assignment (dict port_uops); 1 or 2 passes", "budget": {"quick": 170, "thorough": 900}, "shards": 16},
     "opt_alt_full": {"fn": opt_alt_full, "tiers": ("thorough",), "bound": "same over all 14 forms (two-cycle forms included)", "budget": {"thorough": 1800}, "shards": 48},
+    "shipped": {"fn": shipped, "bound": "16 shipped example/test kernels on zen1/zen2/tx2 x {uniform, one pass, two passes}: per-instruction feasibility against the micro-ops the analysis reports (memory-composed forms on models with multipliers: sign and support only), totals = column sums",
+                "budget": {"quick": 170, "thorough": 300}, "shards": 4},
     "opt_half": {"fn": opt_half, "bound": "two single-micro-op instructions with 0.5 or 1 cycle", "budget": {"quick": 120, "thorough": 300}},
 }
 
